@@ -358,6 +358,10 @@ def foreign_files(out_rel, rich=False):
             out_rel + "/schemas.json": "{}\n",
             out_rel + "/.typecache.lock": "\n",
             out_rel + "/dependency-graph.png": "png\n",
+            out_rel + "/.write_test": "the user's own file of that name\n",
+            out_rel + "/.gitkeep": "",
+            out_rel + "/.typecache.tmp": "tmp\n",
+            out_rel + "/.DS_Store": "x\n",
         })
     return f
 
@@ -744,7 +748,7 @@ class Sandbox:
             shutil.rmtree(tmp, ignore_errors=True)
 
 
-def replay_history(root, hist, has_events, viz, case, driver_override=None, nfiles=2, setup=None, rich_foreign=False):
+def replay_history(root, hist, has_events, viz, case, driver_override=None, nfiles=2, setup=None, rich_foreign=False, has_cmds=True):
     """hist: list of TLC tuples (["edit",c] / ["events",b] / ["commands",b] / ["lose",f] / ["place","probe"] /
     ["run",driver,forced,faultkind,at] / ["end",status,skipped]).  Returns (events, predicted_vs_real list)."""
     # has_events / viz are the FINAL values TLC printed; a toggle entry carries the value AFTER the
@@ -758,7 +762,12 @@ def replay_history(root, hist, has_events, viz, case, driver_override=None, nfil
         if h[0] == "viz":
             viz = h[1] not in truthy
             break
+    for h in hist:
+        if h[0] == "commands":
+            has_cmds = h[1] not in truthy
+            break
     st = State(has_events=has_events, viz=viz)
+    st.has_cmds = bool(has_cmds)
     st.nfiles = nfiles
     if setup:
         setup(st, root)
